@@ -15,7 +15,15 @@ TextOk(r, x) ==
     /\ x.len = Len(x.text)
     /\ r.naninf \/ S!DenotesTree(x.text, r.tree, S!Flag(x.f))
     /\ (r.naninf \/ x.text = S!Serialize(r.tree, x.f) \/ PrintT(<<"MECH", l>>))
+\* every retained number text in the tree still denotes its node's value (set_double / deep copy / parse must keep the two
+\* in step; the harness compares strtod of the text with the node's bit pattern)
+RECURSIVE RetainedOk(_)
+RetainedOk(v) == IF v.t = "double" THEN v.retok
+                 ELSE IF v.t = "array" THEN \A i \in 1..Len(v.e) : RetainedOk(v.e[i])
+                 ELSE IF v.t = "object" THEN \A i \in 1..Len(v.m) : RetainedOk(v.m[i].v)
+                 ELSE TRUE
 SerOk(r) == /\ \A i \in 1..Len(r.texts) : TextOk(r, r.texts[i])
+            /\ r.naninf \/ RetainedOk(r.tree)
             /\ r.bad_len = 0 /\ r.bad_null = 0 /\ r.bad_reparse = 0 /\ r.bad_reser = 0
 StepOfImpl(s, r) == [ok |-> SerOk(r), st |-> s]
 TraceLog == ndJsonDeserialize(IOEnv.TRACE)
